@@ -191,74 +191,24 @@ theorem externs_abi : ∀ r ∈ Gen.Externs.decls, r.params.length = r.cParams.l
   have := this.2 i h hc
   simpa [abiCompat] using this
 
-/-- The (symbol, 0-based parameter position) pairs where the Rust declaration does not have, by name, the
-parameter type of the C prototype: six `len` parameters declared `c_size_t` where C says `uint_fast32_t`
-(the same C type on the reference target, not on targets where `uint_fast32_t` is 32 bits wide), and the
-callback parameter of `mallocTypeInference`, whose Rust type returns `SimplicityErr` where the C typedef
-`rustsimplicity_0_7_callback_mallocBoundVars` returns `size_t`.  The harness reports each of them as a
-failure of the property; this list is what keeps the theorem below provable while they exist. -/
-def paramDeviations : List (String × Nat) :=
-  [("rustsimplicity_0_7_computeCommitmentMerkleRoot", 1),
-   ("rustsimplicity_0_7_computeAnnotatedMerkleRoot", 3),
-   ("rustsimplicity_0_7_verifyCanonicalOrder", 1),
-   ("rustsimplicity_0_7_fillWitnessData", 2),
-   ("rustsimplicity_0_7_verifyNoDuplicateIdentityHashes", 3),
-   ("rustsimplicity_0_7_mallocTypeInference", 1),
-   ("rustsimplicity_0_7_mallocTypeInference", 3)]
-
-/-- the byte keys of the symbols of `paramDeviations` -/
-def paramDeviationKeys : List (Nat × Nat) :=
-  [(0x17275737473696d706c69636974795f305f375f636f6d70757465436f6d6d69746d656e744d65726b6c65526f6f74, 1),
-   (0x17275737473696d706c69636974795f305f375f636f6d70757465416e6e6f74617465644d65726b6c65526f6f74, 3),
-   (0x17275737473696d706c69636974795f305f375f76657269667943616e6f6e6963616c4f72646572, 1),
-   (0x17275737473696d706c69636974795f305f375f66696c6c5769746e65737344617461, 2),
-   (0x17275737473696d706c69636974795f305f375f7665726966794e6f4475706c69636174654964656e74697479486173686573, 3),
-   (0x17275737473696d706c69636974795f305f375f6d616c6c6f6354797065496e666572656e6365, 1),
-   (0x17275737473696d706c69636974795f305f375f6d616c6c6f6354797065496e666572656e6365, 3)]
-
-theorem paramDeviationKeys_tie : paramDeviationKeys.map (fun p => (strOfKey p.1, p.2)) = paramDeviations := by
-  kernel_rfl
-
-theorem deviations_known : allB (fun p => paramDeviationKeys.any fun q => Nat.beq p.1 q.1 && Nat.beq p.2 q.2)
-    C14.Externs.deviations = true := by decide +kernel
-
-theorem deviations_sub : ∀ p ∈ C14.Externs.deviations, (strOfKey p.1, p.2) ∈ paramDeviations := by
-  intro p hp
-  have := allB_spec _ _ deviations_known p hp
-  simp only [List.any_eq_true, Bool.and_eq_true] at this
-  obtain ⟨q, hq, h1, h2⟩ := this
-  rw [← paramDeviationKeys_tie]
-  refine List.mem_map.mpr ⟨q, hq, ?_⟩
-  rw [Nat.eq_of_beq_eq_true h1, Nat.eq_of_beq_eq_true h2]
-
-/-- PARTIAL.  Every parameter of every extern function declaration has, by name (typedefs and aliases
-resolved on both sides; constness not compared; a pointer to `void` stands for any object pointer), the
-type of the C prototype — except the parameters listed in `paramDeviations`.  What is missing for the
-full statement is exactly that list being empty. -/
-theorem externs_param_types_partial : ∀ r ∈ Gen.Externs.decls, ∀ (i : Nat), i < r.params.length →
-    nameCompat (r.params.getD i default) (r.cParams.getD i default) = true ∨
-    (strOfKey r.sym, i) ∈ paramDeviations := by
+/-- Every parameter of every extern function declaration has, by name (typedefs and aliases resolved on
+both sides down to the C standard name — `c_size_t`/`usize` = `size_t`, `c_uint_fast32_t` = `uint_fast32_t`,
+`ubounded` = `uint_least32_t`, …; Rust struct names mapped to the C typedef they mirror; function-pointer
+types compared structurally, return type included; constness not compared; a pointer to `void` stands for
+any object pointer), the type of the corresponding parameter of the C prototype. -/
+theorem externs_param_types : ∀ r ∈ Gen.Externs.decls, ∀ (i : Nat), i < r.params.length →
+    nameCompat (r.params.getD i default) (r.cParams.getD i default) = true := by
   intro r hr i hi
+  have h := allB_spec _ _ C14.Externs.names r hr
   cases hc : nameCompat (r.params.getD i default) (r.cParams.getD i default) with
-  | true => exact .inl rfl
+  | true => rfl
   | false =>
-    right
-    apply deviations_sub (r.sym, i)
     have hd : i ∈ nameDiffs r := by
       simp only [nameDiffs, List.mem_filter, List.mem_range, hc]
       exact ⟨hi, rfl⟩
-    have : ∀ (l : List ExternRow), r ∈ l →
-        (r.sym, i) ∈ l.foldr (fun r acc => (nameDiffs r).map (fun i => (r.sym, i)) ++ acc) [] := by
-      intro l
-      induction l with
-      | nil => intro h; cases h
-      | cons a l ih =>
-        intro h
-        simp only [List.foldr_cons, List.mem_append, List.mem_map]
-        cases h with
-        | head => exact .inl ⟨i, hd, rfl⟩
-        | tail _ h' => exact .inr (ih h')
-    exact this _ hr
+    simp only [List.isEmpty_iff] at h
+    rw [h] at hd
+    cases hd
 
 /-- The `WRAP_` macro through which every jet is bound forwards `(dst, *src, env)` to
 `rustsimplicity_0_7_<jet>`; every one of the 471 wrapped C jets is declared
